@@ -305,6 +305,7 @@ type simPeer struct {
 	nsent  int
 	byType map[string]int
 	last   map[string]proto.Message
+	reqs   []int64 // block requests the node sent to this peer, not yet answered
 
 	inbox chan recvItem
 	done  int // deliveries completed (written by the receive goroutine, read at quiescence)
@@ -349,7 +350,28 @@ func (p *simPeer) record(ch byte, m proto.Message) {
 	p.nsent++
 	p.byType[t]++
 	p.last[t] = m
+	if br, ok := m.(*bcproto.BlockRequest); ok {
+		p.reqs = append(p.reqs, br.Height)
+	}
 	p.mu.Unlock()
+}
+
+// popReq takes the oldest block request the node sent to this peer.
+func (p *simPeer) popReq() (int64, bool) {
+	p.mu.Lock()
+	defer p.mu.Unlock()
+	if len(p.reqs) == 0 {
+		return 0, false
+	}
+	h := p.reqs[0]
+	p.reqs = p.reqs[1:]
+	return h, true
+}
+
+func (p *simPeer) pendingReqs() int {
+	p.mu.Lock()
+	defer p.mu.Unlock()
+	return len(p.reqs)
 }
 
 // Send blocks for the connection's send timeout when the peer never drains its queue.
@@ -440,6 +462,8 @@ type peerM struct {
 	lastCh   byte
 	lastBz   []byte
 	lastSize int
+	lastAdv  bool
+	lastVr   int32
 	lastKind string
 	nrs      bool // sent a NewRoundStep that the reactor accepted
 	deliv    int
@@ -509,6 +533,15 @@ type sim struct {
 	ownDataMemo string
 	genPeer     int // the peer the generator is producing a message for
 
+	script      []simcore.Op // ops the generator has queued (Next only)
+	scripted    bool
+	advertised  map[int]bool // hostile peers that advertised blocks to the pool
+	honestAdv   bool         // the honest peer advertised its two blocks
+	voteH       int64        // height the vote senders below belong to
+	voteSenders map[int]bool // peers that sent votes for that height
+	voteNamed   map[int32]bool // rounds named by those votes
+	maxRounds   int
+
 	memBase runtime.MemStats
 }
 
@@ -521,7 +554,7 @@ const (
 
 func newSim(env *simcore.Env, c simcore.Op) simcore.Sim {
 	s := &sim{env: env, cfg: c, mode: c.Str("mode"), peers: map[int]*peerM{}, removed: map[int]int{}, reasons: map[int]string{},
-		val2Sig: map[string]string{}, evDone: map[int64]bool{}, opsLeft: c.Int("nops")}
+		val2Sig: map[string]string{}, evDone: map[int64]bool{}, opsLeft: c.Int("nops"), advertised: map[int]bool{}, voteSenders: map[int]bool{}, voteNamed: map[int32]bool{}}
 	if s.mode == "" {
 		s.mode = "live"
 	}
@@ -1232,6 +1265,42 @@ func (s *sim) Next(rng *simcore.RNG) simcore.Op {
 		return nil
 	}
 	s.opsLeft--
+	if len(s.script) > 0 {
+		op := s.script[0]
+		s.script = s.script[1:]
+		return op
+	}
+	if lp := s.livePeers(true); s.syncing() && s.storeHeight() == 0 && !s.honestAdv && !s.scripted && len(lp) > 0 && s.honest.live && rng.Bool(0.06) {
+		// the "late answer" pattern: a peer is asked for blocks and removed before it answers, no
+		// other peer is there; its answer arrives; then an honest peer joins the sync and answers
+		// exactly what it is asked
+		only := true
+		for _, idx := range lp {
+			if s.advertised[idx] && idx != lp[0] {
+				only = false
+			}
+		}
+		if only {
+			s.scripted = true
+			a := lp[0]
+			t := func() simcore.Op { return simcore.Op{"a": "tick", "us": []int{10000, 30000, 100000}[rng.Intn(3)] + rng.Intn(90)} }
+			s.script = []simcore.Op{
+				t(),
+				{"a": "leave", "p": a},
+				{"a": "x", "p": a, "late": true, "f": "bc", "k": "bresp", "blk": "chain", "bh": "next", "h": "cur", "seed": rng.Intn(1 << 30)},
+				{"a": "hon", "k": "hstatus", "x": rng.Intn(1 << 20)},
+				t(),
+				{"a": "hon", "k": "hblock"},
+				{"a": "hon", "k": "hblock"},
+				t(),
+			}
+			return simcore.Op{"a": "x", "p": a, "f": "bc", "k": "sresp", "base": "0", "h": "cur+5", "seed": rng.Intn(1 << 30)}
+		}
+	}
+	if s.honest.live && !s.honest.pending && s.honest.sp.pendingReqs() > 0 && rng.Bool(0.6) {
+		// an honest peer answers block requests promptly
+		return simcore.Op{"a": "hon", "k": "hblock"}
+	}
 	hostile := s.livePeers(true)
 	gone := s.gonePeers()
 	if debugLog == "3" {
@@ -1285,14 +1354,22 @@ func (s *sim) Next(rng *simcore.RNG) simcore.Op {
 	case 3:
 		s.genPeer = -1
 		op := s.genHostile(rng)
+		g := gone[rng.Intn(len(gone))]
+		if s.syncing() && s.advertised[g] && rng.Bool(0.5) {
+			// the answer of a peer that was asked for a block and removed before it arrived
+			op = simcore.Op{"f": "bc", "k": "bresp", "blk": "chain", "bh": "next", "h": "cur", "seed": rng.Intn(1 << 30)}
+		}
 		op["a"] = "x"
-		op["p"] = gone[rng.Intn(len(gone))]
+		op["p"] = g
 		op["late"] = true
 		return op
 	case 4:
 		return simcore.Op{"a": "leave", "p": hostile[rng.Intn(len(hostile))]}
 	case 5:
 		ks := []string{"status", "tx", "nrs", "snapreq", "chunkreq"}
+		if s.syncing() && s.storeHeight() == 0 && !s.honestAdv && !s.hostileAdvertising() {
+			ks = append(ks, "hstatus", "hstatus", "hstatus")
+		}
 		if s.consensusRunning() {
 			ks = append(ks, "vote", "vote", "evid", "nrs")
 		}
@@ -1358,6 +1435,24 @@ func (s *sim) Apply(op simcore.Op) (ok bool) {
 		if !pm.live && !op.Bool("late") {
 			return false
 		}
+		if op.Str("f") == "cons" && op.Str("k") == "vburst" {
+			n := op.Int("n")
+			if n < 1 || n > 100 {
+				return false
+			}
+			for i := 0; i < n && !pm.pending && (pm.live || op.Bool("late")); i++ {
+				v := simcore.Op{"f": "cons", "k": "vote", "h": "cur", "r": fmt.Sprintf("+%d", op.Int("r0")+i), "type": op.Int("type"), "bid": op.Str("bid"),
+					"sig": op.Str("sig"), "addr": "val2", "idx": "val2", "ts": "now", "seed": op.Int("seed") + i}
+				h := s.buildHostile(v, pm)
+				if h == nil {
+					break
+				}
+				h.kind = "cons.vburst"
+				s.hostileDelivery(pm, h)
+			}
+			e.Count("op.vburst")
+			break
+		}
 		h := s.buildHostile(op, pm)
 		if h == nil {
 			return false
@@ -1369,7 +1464,7 @@ func (s *sim) Apply(op simcore.Op) (ok bool) {
 			return false
 		}
 		for i := 0; i < op.Int("n") && !pm.pending; i++ {
-			s.hostileDelivery(pm, &hostileMsg{ch: pm.lastCh, bz: pm.lastBz, size: pm.lastSize, kind: "dup:" + strings.TrimPrefix(pm.lastKind, "dup:")})
+			s.hostileDelivery(pm, &hostileMsg{ch: pm.lastCh, bz: pm.lastBz, size: pm.lastSize, adv: pm.lastAdv, vr: pm.lastVr, kind: "dup:" + strings.TrimPrefix(pm.lastKind, "dup:")})
 		}
 		e.Count("op.dup")
 	case "hon":
@@ -1447,6 +1542,18 @@ func (s *sim) hostileDelivery(pm *peerM, h *hostileMsg) {
 		}
 		e.Count("fault.big_size_msg")
 	}
+	isVote := strings.Contains(h.kind, "cons.vote") || strings.Contains(h.kind, "cons.vburst")
+	if isVote {
+		if rs := s.conS.GetRoundState(); rs.Height != s.voteH {
+			s.voteH, s.voteSenders, s.voteNamed = rs.Height, map[int]bool{}, map[int32]bool{}
+		}
+		s.voteSenders[pm.idx] = true
+		s.voteNamed[h.vr] = true
+	}
+	if h.adv && wasLive {
+		s.advertised[pm.idx] = true
+	}
+	pm.lastAdv, pm.lastVr = h.adv, h.vr
 	returned := s.deliverSized(pm, h.ch, h.bz, h.size, h.kind)
 	e.Count("op.hostile")
 	e.Count("hostile." + h.kind)
@@ -1473,6 +1580,9 @@ func (s *sim) hostileDelivery(pm *peerM, h *hostileMsg) {
 	}
 	if h.kind == "cons.nrs" && inSet {
 		pm.nrs = true
+	}
+	if isVote {
+		s.voteRounds(h.kind)
 	}
 }
 
